@@ -65,10 +65,19 @@ func gen(t *rapid.T) Case {
 	}
 	no := rapid.IntRange(1, 16).Draw(t, "nops")
 	slow := 0
+	bursts := 0
 	for i := 0; i < no; i++ {
-		k := rapid.SampledFrom([]string{"record", "record", "record", "record", "pass", "pass", "stopwatch", "hstopwatch", "exec", "close", "reobtain", "reobtain"}).Draw(t, "k")
+		k := rapid.SampledFrom([]string{"record", "record", "record", "record", "pass", "pass", "stopwatch", "hstopwatch", "exec", "close", "reobtain", "reobtain", "burst"}).Draw(t, "k")
+		if k == "burst" && (bursts > 0 || rapid.IntRange(0, 2).Draw(t, "burst?") != 0) {
+			k = "record" // at most one long burst per case, in a third of the cases that draw it
+		}
 		op := Op{K: k, T: rapid.IntRange(0, nt-1).Draw(t, "t")}
 		switch k {
+		case "burst":
+			// a long history on ONE timer: thousands of values (nothing may be dropped, thinned out or
+			// capped - a reporter-less scope keeps every value for its snapshots)
+			bursts++
+			op.D = int64(rapid.IntRange(2049, 5000).Draw(t, "burstN"))
 		case "record":
 			op.D = pbt.AnyInt64().Draw(t, "d")
 		case "stopwatch", "hstopwatch", "exec":
@@ -166,6 +175,23 @@ func run(c Case) (pbt.Outcome, error) {
 					if (c.Mode == "cached" || c.Mode == "both") && e.Handle == 0 {
 						errs.Addf("op %d: a cached reporter is configured (mode %s) but the timer value was not delivered through its cached handle (the cached path takes precedence over the plain one)", oi, c.Mode)
 					}
+				}
+			}
+		case "burst":
+			n := int(op.D)
+			if n < 1 || n > 20000 {
+				n = 2049
+			}
+			for k := 0; k < n; k++ {
+				d := time.Duration(k + 1)
+				timers[op.T].Record(d)
+				wantSnap[timerID(op.T)] = append(wantSnap[timerID(op.T)], d)
+			}
+			distinctTimers[timerID(op.T)] = true
+			sawRecord = true
+			if c.Mode != "test" {
+				if ev := timerEvents(before); len(ev) != n {
+					errs.Addf("op %d: a burst of %d Records produced %d timer deliveries", oi, n, len(ev))
 				}
 			}
 		case "close":
